@@ -407,7 +407,28 @@ def execute(plan, choices=None):
     hook = stream.ReadFaults(sim, plan["faults"], key_of=None)
     # LabelsReader reads by (video, frame_idx): map back to the stream position
     sim.register_main("consumer")
-    truth, pred, rec, got = _build(plan, sim, hook)
+    try:
+        truth, pred, rec, got = _build(plan, sim, hook)
+    except Exception as e:  # building the reader / pipeline for a valid plan must not raise (the stream would never even start)
+        import traceback
+
+        where = "?"
+        for fs in traceback.extract_tb(e.__traceback__):
+            if "sleap_nn" in fs.filename:
+                where = fs.filename.split("sleap_nn/")[-1] + ":" + fs.name
+        if where == "?":
+            raise
+        try:
+            sim.teardown()
+        except Exception:
+            pass
+        return {
+            "violations": [{"kind": "construction_failed", "sig": f"construction_failed:{type(e).__name__}@{where}",
+                            "detail": f"building the reader for plan {describe(plan)} raised {type(e).__name__}: {e}"}],
+            "digest": hashlib.blake2b(repr(("construction_failed", type(e).__name__, where)).encode(), digest_size=16).hexdigest(),
+            "choices": [], "shape": "construction_failed", "interleaving": "", "nontrivial": False, "probes": {}, "faults": {}, "sim_us": 0, "steps": 0,
+            "fault_free": not plan["faults"], "states": [], "outcome": {"delivered": 0, "batches": [], "end": "construction_failed", "steps": 0},
+        }
     if plan["provider"] != "video":
         pos = {(t["v"], t["f"]): t["key"] for t in truth}
         vids = pred.pipeline.labels.videos
